@@ -273,6 +273,23 @@ func runC07(o *out, thorough bool, r *rng, _ []string) map[string]interface{} {
 	sharedDestinationMonitor(o, r, 300)
 	destinationChainMonitor(o, r, 1500)
 	lookupCases(o, r, 600) // getters run through ForEach: a failing callback must not leave the message truncated
+	// UNKNOWN-ATTRIBUTES values that end in a repeated type, or are one 16-bit pattern throughout
+	for i := 0; i < 60; i++ {
+		n := 1 + i%9
+		var enc []byte
+		for k := 0; k < n; k++ {
+			t := r.attrType()
+			if i%3 == 0 {
+				t = []int{0, 0xffff, 0x0014, 0x8022}[i/3%4]
+			}
+			enc = append(enc, byte(t>>8), byte(t))
+		}
+		enc = append(enc, enc[len(enc)-2:]...)
+		body := r.tlv(0x000a, enc, len(enc))
+		ex := fill(r, r.pick([]int{0, 0, 3, 8}), r.intn(3))
+		o.run(701, []string{fHex(append(header(0x0111, len(body), r.bytes(12)), body...)), fHex(ex), fNums(5, 10), "-"}, true)
+		o.count("unknown-lists-ending-in-a-repeated-type")
+	}
 	reps := 2
 	if thorough {
 		reps = 12
